@@ -191,7 +191,7 @@ def direct(app, case, seen):
     from spyne.server.null import NullServer
     ns = NullServer(app, ostr=True) if case.get('ostr') else NullServer(app)
     pos, kw = [], {}
-    names = [pub(case, i) for i in range(3)]
+    names = [pub(case, i) for i in range(len(case['modes']))]
     for i, m in enumerate(case['modes']):
         v, alt = 10 * (i + 1), 10 * (i + 1) + 5
         if case['style'] == 'bare_rec' and i == 0:
@@ -367,7 +367,7 @@ def run(ctx):
     from spyne.protocol.xml import XmlDocument
     out = os.path.join(ctx.work, 'null_cases.json')
     cfg = pc.write_cfg(os.path.join(ctx.work, 'expn.cfg'), ['INIT Init', 'NEXT Next', 'CHECK_DEADLOCK FALSE'])
-    r0 = tlc.run('ExportNull', cfg, ctx.work, env={'OUT_FILE': out})
+    r0 = tlc.run('ExportNull', cfg, ctx.work, env={'OUT_FILE': out, 'FAMILY': ctx.tier}, timeout=1800)
     exported = json.load(open(out))
     cases = exported['cases']
     cases.sort(key=lambda c: json.dumps(c, sort_keys=True))
